@@ -9,7 +9,7 @@
     that is checked on the implementation after every call against the byte-buffer reference and tied to the model's
     handle layer by results and write logs. *)
 From Coq Require Import ZArith List Bool Sorted FMapPositive.
-From PyFatV Require Import Base.Bytes Base.PyEnv Gen.Pure Model.Codec Model.Dir Model.FS Proofs.FatTable Proofs.Geometry Proofs.Device Proofs.DirCodec Proofs.DirState Proofs.Chains Proofs.FileData Properties.C03.
+From PyFatV Require Import Base.Bytes Base.PyEnv Gen.Pure Model.Codec Model.Dir Model.FS Proofs.FatTable Proofs.Geometry Proofs.Device Proofs.DirCodec Proofs.DirState Proofs.Chains Proofs.FileData Proofs.Namespace Properties.C03.
 Import ListNotations.
 Open Scope Z_scope.
 
@@ -68,4 +68,20 @@ Example C02_cursor_write_example :
   read_chunks ex_w [3; 5; 6] 100 600 4 = Ok (repeat 0 512 ++ repeat 7 88) /\
   firstn 600 (skipn 612 (read_chain ex_w [3; 5; 6])) = ex_b.
 Proof. vm_compute. repeat split; reflexivity. Qed.
+(** the other half of a write or truncate through a handle: the entry update.  After [update_entry] — the parent directory
+    read, the entry replaced, the directory rewritten — looking the entry up again returns the updated entry, and the
+    directory reads back with exactly that one entry changed; for every update that commutes with the reader's normal form,
+    such as the new size *)
+Theorem C02_entry_update : forall s h f s' es0 ch e,
+  dev_ok (s_dev s) -> geom_ok s -> vt (ft s) -> 0 <= s_hint s -> h_parent h <> -1 ->
+  chain s (h_parent h) = (ch, true) -> Forall (inside s) ch -> vol_ok s ->
+  Forall entry_ok es0 -> read_dir s (h_parent h) = Ok (map canon es0) -> commutes f ->
+  find_in_dir s h = Ok e ->
+  update_entry s h f = Ok s' ->
+  find_in_dir s' h = Ok (f e) /\
+  read_dir s' (h_parent h) = Ok (map (fun x => if list_eqb (d_name x) (h_name h) then f x else x) (map canon es0)).
+Proof. exact update_entry_then_find. Qed.
+Print Assumptions C02_entry_update.
+Theorem C02_size_update_commutes : forall n, 0 <= n < 4294967296 -> commutes (fun x => set_size x n).
+Proof. exact set_size_commutes. Qed.
 (* C02_refine (not proved): results, positions and contents of every handle program equal the reference buffer's. *)
